@@ -58,16 +58,27 @@ type regRun struct {
 	running bool // between listenStarts and shutdown
 	done    chan error
 	conns   []*varlink.Connection
+	// the white-box counter did not reach an expected value once: no longer used for synchronisation
+	counterOff bool
 }
 
+// waitCounter waits until the service's white-box connection counter has the expected value. If it never gets
+// there the accounting of the implementation is off: the history goes on nevertheless (with short pauses instead of
+// this synchronisation), so that what the wrong count leads to — e.g. a registration accepted while a connection is
+// still open — shows up in the observations and the case can be replayed.
 func (r *regRun) waitCounter(want int64) bool {
+	if r.counterOff {
+		time.Sleep(30 * time.Millisecond)
+		return true
+	}
 	for t := 0; t < 3000; t++ {
 		if r.svc.VerifConnCounter() == want {
 			return true
 		}
 		time.Sleep(time.Millisecond)
 	}
-	return false
+	r.counterOff = true
+	return true
 }
 
 func (r *regRun) startListening(ctx context.Context) error {
@@ -312,6 +323,8 @@ func init() {
 			}
 			asked = append(asked, "org.varlink.servic", "nope.nope")
 			l.S("|")
+			counterSlot := len(l.toks) // filled in at the end: was the white-box counter ever off
+			l.Bool(false)
 			for _, o := range ops {
 				if o.kind == "register" || o.kind == "info" || o.kind == "desc" {
 					l.S(o.res) // for queries: several tokens
@@ -380,6 +393,9 @@ func init() {
 			svc.Shutdown()
 			r.running = false
 			r.reapIfDrained()
+			if r.counterOff {
+				l.toks[counterSlot] = "1"
+			}
 			fmt.Fprintln(e.out, l.String())
 			return nil
 		})
